@@ -16,6 +16,7 @@ RULES = {
     "C08.R5": "walk: quantize iterates named_modules(), applies the filter, forwards **kwargs, and replaces through set_module_by_name only when a twin was built",
     "C08.R7": "weight source: qforward reads the weight only through self.qweight, a plain property that stores nothing and returns quantize_weight(self.weight, <module configuration>) on every unfrozen access (the twin is evaluated with the quantization of its current weight)",
     "C08.R8": "the float op the twin calls on (input, qweight, bias) is itself right: the quantized linear function returns (*batch, out) with every raw payload matched by its scale once and the bias added after scaling (the typing rules C07.R1/R2/R6, re-checked here)",
+    "C08.R9": "dtype and device are kept: the activation-scale buffers of a twin are created with the dtype and device the constructor receives from the source module (a factory call without dtype gives float32 scales, hence float32 outputs from a half-precision model)",
     "C08.R6": "forward pipeline: input/output (re)quantized with input_scale/output_scale and activation_qtype under `activation_qtype is not None`; qforward computes the float op on (input, qweight, bias)",
 }
 
@@ -117,6 +118,7 @@ def run(chk):
     copy_rule(chk)
     walk_rule(chk)
     forward_rule(chk, qm)
+    scale_buffers(chk, mixin)
     from .c09 import qweight_source
     qweight_source(chk, r2="C08.R7", r3="C08.R7")
     from ..report import AliasedCheck
@@ -575,3 +577,23 @@ def functional_signature(name):
     if fn is None:
         raise AnalysisError(f"torch.nn.functional.{name} not found")
     return [a.arg for a in fn.args.args]
+
+
+def scale_buffers(chk, mixin):
+    init = mixin.own("__init__")
+    kwn = init.args.kwarg.arg if init.args.kwarg else None
+    n = 0
+    for p in paths_of(init):
+        if p.end[0] == "raise":
+            continue
+        for ef in p.effects:
+            if ef[0] == "expr" and isinstance(ef[1], ast.Call) and U(ef[1].func) == "self.register_buffer" and len(ef[1].args) >= 2 and isinstance(ef[1].args[0], ast.Constant) and ef[1].args[0].value in ("input_scale", "output_scale"):
+                n += 1
+                v = ef[1].args[1]
+                kw = {k.arg: U(k.value) for k in v.keywords} if isinstance(v, ast.Call) else {}
+                dt = kw.get("dtype", "")
+                follows = bool(kwn) and (dt in (f"{kwn}.get('dtype')", f"{kwn}['dtype']", f"{kwn}.get('dtype', None)") or "self.weight.dtype" in dt or dt == "dtype")
+                like = isinstance(v, ast.Call) and U(v.func).endswith(("ones_like", "new_ones")) or ".to(" in U(v) and "dtype" in U(v)
+                chk.require("C08.R9", f"{mixin.mod.rel}:{ef[2]}", follows or like, f"QModuleMixin.__init__: buffer {ef[1].args[0].value} = `{U(v)[:70]}` takes the constructor's dtype", "QModuleMixin.__init__", "scale buffers in the default dtype",
+                            "a float16 / bfloat16 model quantized with activations: float32 scales, so every quantized activation and the model's outputs are float32 until a calibration replaces the buffers")
+    chk.floor("C08.R9", n, 2, "activation scale buffers registered in the constructor")
